@@ -17,7 +17,11 @@ REAL_TARGETS = ["2.7", "3.6", "3.7", "3.8", "3.9", "3.10", "3.11", "3.12", "3.13
 COUSIN = {"2.3": "2.7", "2.4": "2.7", "2.5": "2.7", "2.6": "2.7",
           "3.0": "3.7", "3.1": "3.7", "3.2": "3.7", "3.3": "3.7", "3.4": "3.7", "3.5": "3.7",
           "2.1": "2.7", "2.2": "2.7"}
-REF_TARGETS = REAL_TARGETS + sorted(COUSIN)
+# PyPy writes the marshal format of the CPython level it implements under its own magic number (PyPy's
+# pypy/interpreter/pycode.py; the numbers are also the ones of the sample files under test/bytecode_pypy*)
+PYPY = {"pypy2.7": (62218, "2.7"), "pypy3.5": (112, "3.5"), "pypy3.6": (192, "3.6"), "pypy3.7": (240, "3.7"),
+        "pypy3.8": (256, "3.8"), "pypy3.9": (336, "3.9"), "pypy3.10": (384, "3.10")}
+REF_TARGETS = REAL_TARGETS + sorted(COUSIN) + sorted(PYPY)
 
 
 def xdis_frame(tb_text):
@@ -56,6 +60,8 @@ class C10:
         self.magics = final_magics()
 
     def magic_for(self, target):
+        if target in PYPY:
+            return PYPY[target][0]
         return self.magics[rm.vtuple(target)]
 
     def strategy(self, ctx):
@@ -68,7 +74,7 @@ class C10:
             else:
                 target = draw(st.sampled_from(REF_TARGETS))
                 mver = None
-            py2 = target.startswith("2.")
+            py2 = target.startswith("2.") or target == "pypy2.7"
             vals = draw(gv.shared_values(py2))
             choices = draw(st.lists(st.integers(0, 255), max_size=40)) if enc == "ref" else []
             return {"target": target, "enc": enc, "mver": mver, "values": vals, "choices": choices}
@@ -82,6 +88,12 @@ class C10:
             return res
         case = dict(case)
         case["values"] = [gv.expand(v) for v in case["values"]]
+        wire = target                       # whose magic number the bytes are read under
+        if target in PYPY:
+            if enc != "ref":
+                res.reject = "malformed-case"
+                return res
+            target = PYPY[target][1]
         vt = rm.vtuple(target)
         py2 = vt < (3, 0)
         features = set()
@@ -156,7 +168,7 @@ class C10:
         sigbase = "C10|%s" % ("py2" if py2 else "py3")
         got_fields = None
         try:
-            co = x.unmarshal.load_code(fp, self.magic_for(target))
+            co = x.unmarshal.load_code(fp, self.magic_for(wire))
             got = rw.xcanon(co.co_consts, py2)
             consumed = fp.tell()
             if enc == "ref":
@@ -184,14 +196,14 @@ class C10:
                                 "nonascii-text"} | set(f for f in features if f.startswith("backref")))
         res.nontrivial = bool(nt)
         res.key = rw.hx(payload)
-        res.classes = ["enc:" + enc, "target:" + target] + sorted(
+        res.classes = ["enc:" + enc, "target:" + wire] + sorted(
             "f:" + f for f in features if not f.startswith("flagref:") and len(f) > 1) + sorted(
             "kind:" + f for f in features if len(f) == 1)
         if any(f.startswith("flagref:") for f in features):
             res.classes.append("f:flagref-unreferenced-or-shared")
         if case["mver"] is not None:
             res.classes.append("mver:%d" % case["mver"])
-        res.sample = {"target": target, "enc": enc, "mver": case["mver"], "payload_hex": rw.hx(payload)[:160],
+        res.sample = {"target": wire, "enc": enc, "mver": case["mver"], "payload_hex": rw.hx(payload)[:160],
                       "payload_len": len(payload), "features": sorted(features)[:12]}
         return res
 
